@@ -972,6 +972,9 @@ func (ex *Exec) index(fr *Frame, x *ssa.Index) Value {
 			}
 			return ex.tt.BV(uint64(s[i]), 8)
 		}
+		if cp, _ := constPrefix(a); i >= 0 && i < len(cp) {
+			return ex.tt.BV(uint64(cp[i]), 8)
+		}
 	}
 	panic(ex.unsupported("index on %T", v))
 }
@@ -1120,6 +1123,11 @@ func (ex *Exec) sliceOp(fr *Frame, x *ssa.Slice) Value {
 				panic(ex.goPanic("slice bounds out of range"))
 			}
 			return ex.tt.Str(s[lo:hi])
+		}
+		if cp, _ := constPrefix(a); hi < 0 && lo >= 0 && lo <= len(cp) {
+			if r, ok := stripPrefix(ex.tt, a, cp[:lo]); ok {
+				return r
+			}
 		}
 		panic(ex.unsupported("slice of symbolic string"))
 	}
